@@ -262,7 +262,7 @@ func main() {
 			ck.run(root, lib.NewRng(cfg.Seed))
 		}
 	})
-	names := []string{"corpus", "exhaustive", "random", "replay"}
+	names := []string{"corpus", "exhaustive", "random_a", "random_b", "replay"}
 	for _, n := range names {
 		if f, ok := ck.files[n]; ok {
 			res.CorrFiles = append(res.CorrFiles, f.WriteTo(cfg.Out, "cases_"+n))
@@ -357,7 +357,8 @@ func (ck *checker) run(root px.Context, rng *lib.Rng) {
 			}
 		}
 		for _, reg := range scenarios(s) {
-			ck.checkValue(root, s, reg, sel, pick(r, perValue, len(sel)), "random", false)
+			// two Coq files, evaluated in parallel by the driver
+			ck.checkValue(root, s, reg, sel, pick(r, perValue, len(sel)), []string{"random_a", "random_b"}[i%2], false)
 		}
 	}
 }
